@@ -1,9 +1,13 @@
 (* C11 - Wire encoding is canonical, stable, and what is signed is what is cleared.
    Statements restated from Proofs/CodecProofs.v and Proofs/CodecProofs2.v (closed by [exact]).
-   Partial: the typed lenient decoding of individual fields is not modelled (DESIGN.md section 0); the frame level is. *)
+   Statements about the typed lenient decoder restated from Proofs/TypedDecProofs.v.
+   Partial: the typed lenient decoding of individual fields is modelled for the scalar-bodied caveat types (Model.TypedDec:
+   integer widths, nil-for-zero, str/bin interchange, array- and map-encoded structs, 16/32-bit truncation); see DESIGN.md
+   section 0 for the types whose bodies are modelled at the frame level only. *)
 From Coq Require Import List Bool NArith ZArith String Permutation Sorted Decimal DecimalString.
 From Mac Require Import Model.Err Model.Caveat Model.Access Model.Prohibits Model.Msgpack Model.Codec Proofs.CodecProofs Proofs.CodecProofs2 Proofs.JsonTypeProofs Generated.Facts.
 Import ListNotations.
+From Mac Require Import Model.TypedDec Proofs.TypedDecProofs.
 
 Theorem enc_rs_n_perm_invariant :
     forall l l' : list (N * N), Permutation l l' -> NoDup (map fst l) -> enc_rs_n l = enc_rs_n l'.
@@ -169,6 +173,103 @@ Theorem type_json_roundtrip_al_facts :
     (type_to_json all_reg f_cav_min_user_defined t) = t.
 Proof. exact (@type_json_roundtrip_al_facts_l). Qed.
 
+Theorem dec_body_enc_body :
+    forall c : cav,
+    scalar_cav c = true ->
+    fits_cav c = true ->
+    wf_cav c -> forall b : bytes, enc_body c = Some b -> dec_body (cav_type c) b = Some c.
+Proof. exact (@dec_body_enc_body_l). Qed.
+
+Theorem dec_body_enc_body_trunc :
+    forall c : cav,
+    scalar_cav c = true ->
+    wf_cav c -> forall b : bytes, enc_body c = Some b -> dec_body (cav_type c) b = Some (trunc_cav c).
+Proof. exact (@dec_body_enc_body_trunc_l). Qed.
+
+Theorem dec_body_rest_enc_body :
+    forall c : cav,
+    scalar_cav c = true ->
+    wf_cav c ->
+    forall (b : bytes) (rest : list N),
+    enc_body c = Some b -> dec_body_rest (cav_type c) (b ++ rest) = Some (trunc_cav c, rest).
+Proof. exact (@dec_body_rest_enc_body_l). Qed.
+
+Theorem dec_body_trailing :
+    forall (ty : N) (b : bytes) (c : cav) (t : list N),
+    dec_body ty b = Some c -> dec_body ty (b ++ t) = Some c.
+Proof. exact (@dec_body_trailing_l). Qed.
+
+Theorem dec_body_reenc :
+    forall (ty : N) (b : bytes) (c : cav),
+    byte_list b ->
+    (N.of_nat (Datatypes.length b) < 2 ^ 29)%N ->
+    dec_body ty b = Some c -> exists b' : bytes, enc_body c = Some b' /\ dec_body ty b' = Some c.
+Proof. exact (@dec_body_reenc_l). Qed.
+
+Theorem dec_body_rest_consumes :
+    forall ty : N, consumes (dec_body_rest ty).
+Proof. exact (@dec_body_rest_consumes_l). Qed.
+
+Theorem dec_body_rest_wf :
+    forall (ty : N) (b : bytes) (c : cav) (r : bytes),
+    byte_list b ->
+    (N.of_nat (Datatypes.length b) < 2 ^ 29)%N ->
+    dec_body_rest ty b = Some (c, r) ->
+    cav_type c = ty /\ scalar_cav c = true /\ fits_cav c = true /\ wf_cav c.
+Proof. exact (@dec_body_rest_wf_l). Qed.
+
+Theorem dec_uint_len_any_width :
+    forall (n : N) (r : list N),
+    (n < 2 ^ 64)%N ->
+    dec_uint_len (enc_uint n ++ r) = Some (n, r) /\
+    (forall k : nat,
+    In k widths -> (n < 256 ^ N.of_nat k)%N -> dec_uint_len (ucode k :: be k n ++ r) = Some (n, r)).
+Proof. exact (@dec_uint_len_any_width_l). Qed.
+
+Theorem dec_int64_len_any_width :
+    forall (z : Z) (r : list N),
+    wf_i64 z ->
+    dec_int64_len (enc_int z ++ r) = Some (z, r) /\
+    (forall k : nat,
+    In k widths ->
+    (- 2 ^ sbits k <= z < 2 ^ sbits k)%Z ->
+    dec_int64_len (icode k :: be k (Z.to_N (z mod 2 ^ (sbits k + 1))) ++ r) = Some (z, r)) /\
+    (forall k : nat,
+    In k widths ->
+    (0 <= z)%Z ->
+    (Z.to_N z < 256 ^ N.of_nat k)%N -> dec_int64_len (ucode k :: be k (Z.to_N z) ++ r) = Some (z, r)).
+Proof. exact (@dec_int64_len_any_width_l). Qed.
+
+Theorem dec_body_nil :
+    forall r : list N,
+    dec_body_rest 0 (192%N :: r) = Some (COrganization 0 0, r) /\
+    dec_body_rest 4 (192%N :: r) = Some (CValidityWindow 0 0, r) /\
+    dec_body_rest 8 (192%N :: r) = Some (CConfineUser 0, r) /\
+    dec_body_rest 9 (192%N :: r) = Some (CConfineOrganization 0, r) /\
+    dec_body_rest 10 (192%N :: r) = Some (CIsUser 0, r) /\
+    dec_body_rest 12 (192%N :: r) = Some (CBind None, r) /\
+    dec_body_rest 15 (192%N :: r) = Some (CFromMachine "", r) /\
+    dec_body_rest 19 (192%N :: r) = Some (CConfineGoogleHD "", r) /\
+    dec_body_rest 20 (192%N :: r) = Some (CConfineGitHubOrg 0, r) /\
+    dec_body_rest 21 (192%N :: r) = Some (CMaxValidity 0, r) /\
+    dec_body_rest 22 (192%N :: r) = Some (CIsMember, r) /\
+    dec_body_rest 23 (192%N :: r) = Some (CFlyioUserID 0, r) /\
+    dec_body_rest 24 (192%N :: r) = Some (CGitHubUserID 0, r) /\
+    dec_body_rest 25 (192%N :: r) = Some (CGoogleUserID 0, r) /\
+    dec_body_rest 26 (192%N :: r) = Some (CAction 0, r) /\
+    dec_body_rest 30 (192%N :: r) = Some (CAllowedRoles 0, r) /\
+    dec_body_rest 31 (192%N :: r) = Some (CFlySrc "" "" "", r).
+Proof. exact (@dec_body_nil_l). Qed.
+
+Theorem dec_body_google_hd_bin :
+    forall s : string, wf_str s -> dec_body 19 (enc_bin (str_bytes s)) = Some (CConfineGoogleHD s).
+Proof. exact (@dec_body_google_hd_bin_l). Qed.
+
+Theorem dec_body_bind_str :
+    forall p : list N,
+    (N.of_nat (Datatypes.length p) < 2 ^ 32)%N -> dec_body 12 (enc_str p) = Some (CBind (Some p)).
+Proof. exact (@dec_body_bind_str_l). Qed.
+
 Print Assumptions enc_rs_n_perm_invariant.
 Print Assumptions enc_rs_s_perm_invariant.
 Print Assumptions enc_body_rs_perm.
@@ -196,3 +297,15 @@ Print Assumptions type_from_json_numeric.
 Print Assumptions type_json_roundtrip_al.
 Print Assumptions aliases_ok_facts.
 Print Assumptions type_json_roundtrip_al_facts.
+Print Assumptions dec_body_enc_body.
+Print Assumptions dec_body_enc_body_trunc.
+Print Assumptions dec_body_rest_enc_body.
+Print Assumptions dec_body_trailing.
+Print Assumptions dec_body_reenc.
+Print Assumptions dec_body_rest_consumes.
+Print Assumptions dec_body_rest_wf.
+Print Assumptions dec_uint_len_any_width.
+Print Assumptions dec_int64_len_any_width.
+Print Assumptions dec_body_nil.
+Print Assumptions dec_body_google_hd_bin.
+Print Assumptions dec_body_bind_str.
